@@ -104,6 +104,7 @@ def step (s : St) (ws : List String) : St × String :=
       | .ok n' =>
         let head := if n'.cmeta.1 > 0 then (if (getBlock n' n'.cmeta.1 true).isSome then "readable" else "unreadable") else "readable"
         let sk := (match (Bxh.Ledger.getState n'.st 0 "height").2 with | some v => v | none => "-") ++ "/" ++ toString (Bxh.Ledger.getBalance n'.st 0).2
+          ++ "/" ++ (match (Bxh.Ledger.getState n'.st 0 "binheight").2 with | some v => v | none => "-")
         -- the head block's state root ("r<h>-<serial>", as its hash is "B<h>.<serial>") against the root the reopened state store chains from
         let headRoot := if n'.cmeta.1 > 0 then
             (match getBlock n' n'.cmeta.1 false with | some hb => "r" ++ ((hb.hash.drop 1).toString.replace "." "-") | none => "?")
